@@ -75,52 +75,60 @@ fn rank(s: &str) -> i64 {
     }
 }
 
+fn canon_set(v: Vec<Value>) -> Value {
+    let mut s: Vec<String> = v.iter().map(|x| x.to_string()).collect();
+    s.sort();
+    json!(s)
+}
+fn set_of(v: &Value) -> Value {
+    canon_set(v.as_array().cloned().unwrap_or_default())
+}
+
 /// the harness-side counterpart of MilkyWay!Digest
-pub fn digest(ok: bool, post: &Value) -> Value {
+pub fn digest(ok: bool, post: &Value, msgs: &[Value]) -> Value {
     let c = &post["c"];
     let empty = vec![];
-    let bs = c["batches"].as_array().unwrap_or(&empty);
-    let reqs = c["reqs"].as_array().unwrap_or(&empty);
-    let pk = c["pk"].as_array().unwrap_or(&empty);
-    let bank = post["bank"].as_array().unwrap_or(&empty);
-    let sum = |it: &mut dyn Iterator<Item = i64>| -> i64 { it.sum() };
-    let bal = |own: bool, den: &str| -> i64 {
-        bank.iter().filter(|r| (r["a"] == "contract") == own && r["d"] == den).map(|r| ju(r, "x")).sum()
+    let arr = |v: &Value| -> Vec<Value> { v.as_array().cloned().unwrap_or_default() };
+    let due = |b: &Value| -> i64 {
+        let d = ju(b, "due");
+        if d < 0 { d } else { d.rem_euclid(100000) }
     };
-    json!([
-        ok,
-        c["stopped"],
-        ju(c, "N"),
-        ju(c, "L"),
-        ju(c, "fees"),
-        ju(c, "rewards"),
-        ju(c, "pend"),
-        bs.len(),
-        sum(&mut bs.iter().map(|b| rank(b["status"].as_str().unwrap_or("")))),
-        sum(&mut bs.iter().map(|b| ju(b, "expected"))),
-        sum(&mut bs.iter().map(|b| ju(b, "received"))),
-        sum(&mut bs.iter().map(|b| ju(b, "total"))),
-        sum(&mut bs.iter().map(|b| ju(b, "due").rem_euclid(1000))),
-        sum(&mut reqs.iter().map(|q| ju(q, "amt"))),
-        reqs.len(),
-        pk.len(),
-        sum(&mut pk.iter().filter(|p| p["status"] == "sent").map(|p| ju(p, "amt"))),
-        sum(&mut pk.iter().filter(|p| p["status"] == "ackfail" || p["status"] == "timeout").map(|p| ju(p, "amt"))),
-        bal(true, "IBCTIA"),
-        bal(true, "LST"),
-        bal(false, "IBCTIA"),
-        bal(false, "LST"),
-        ju(post, "sup"),
-        ju(&post["ibc"], "next"),
-        post["ibc"]["fly"].as_array().map(|a| a.len()).unwrap_or(0),
-        sum(&mut post["nat"]["bal"].as_array().unwrap_or(&empty).iter().map(|r| ju(r, "x"))),
-        sum(&mut post["nat"]["lst"].as_array().unwrap_or(&empty).iter().map(|r| ju(r, "x"))),
-        ju(post, "now").rem_euclid(1000),
-        ju(&post["led"], "swept"),
-        ju(&post["led"], "deliv"),
-        c["admin"],
-        c["pending"],
-    ])
+    let md: Vec<Value> = msgs
+        .iter()
+        .map(|m| match m["k"].as_str().unwrap_or("") {
+            "oracle" => json!(["oracle", m["red"], m["pur"], m["to"]]),
+            "send" => json!(["send", m["den"], m["amt"], m["to"]]),
+            "ibc" => json!(["ibc", m["den"], m["amt"], m["rcv"], m["seq"]]),
+            "tf_mint" => json!(["tf_mint", m["den"], m["amt"], m["to"]]),
+            "tf_burn" => json!(["tf_burn", m["den"], m["amt"], m["from"]]),
+            k => json!([k]),
+        })
+        .collect();
+    json!({
+        "ok": ok,
+        "s": [c["stopped"], ju(c, "N"), ju(c, "L"), ju(c, "fees"), ju(c, "rewards"), ju(c, "pend"), c["admin"], c["pending"],
+              ju(post, "sup"), ju(&post["ibc"], "next"), ju(post, "now").rem_euclid(100000), ju(&post["led"], "swept"), ju(&post["led"], "deliv")],
+        "b": c["batches"].as_array().unwrap_or(&empty).iter().map(|b| json!([ju(b, "total"), ju(b, "expected"), ju(b, "received"), ju(b, "cnt"), due(b), b["status"]])).collect::<Vec<_>>(),
+        "q": canon_set(arr(&c["reqs"]).iter().map(|q| json!([q["b"], q["u"], q["amt"]])).collect()),
+        "p": canon_set(arr(&c["pk"]).iter().map(|p| json!([p["seq"], p["den"], p["amt"], p["rcv"], p["status"]])).collect()),
+        "f": canon_set(arr(&post["ibc"]["fly"]).iter().map(|p| json!([p["seq"], p["den"], p["amt"], p["rcv"]])).collect()),
+        "k": canon_set(arr(&post["bank"]).iter().filter(|r| ju(r, "x") != 0).map(|r| json!([r["a"], r["d"], r["x"]])).collect()),
+        "n": canon_set(arr(&post["nat"]["bal"]).iter().filter(|r| ju(r, "x") != 0).map(|r| json!([r["a"], r["x"]])).collect()),
+        "l": canon_set(arr(&post["nat"]["lst"]).iter().filter(|r| ju(r, "x") != 0).map(|r| json!([r["a"], r["x"]])).collect()),
+        "m": md,
+    })
+}
+
+/// normalises a TLC-emitted digest (sets arrive as arrays in arbitrary order)
+pub fn norm_expected(d: &Value) -> Value {
+    let mut d = d.clone();
+    if d.is_object() {
+        for k in ["q", "p", "f", "k", "n", "l"] {
+            let v = set_of(&d[k]);
+            d[k] = v;
+        }
+    }
+    d
 }
 
 struct Frame {
@@ -163,7 +171,15 @@ impl<'a> Walker<'a> {
         let Some(edges) = self.kids.get(&node) else { return };
         for e in edges {
             let mut run = stack.last().unwrap().run.clone();
-            let (call, out) = run.step(&e.call);
+            let mut ecall = e.call.clone();
+            if run.digest_kind == "ownership:treasury" {
+                // the machine of OwnershipMC.tla driven against the treasury contract
+                let m = ecall["m"].as_str().unwrap_or("").to_string();
+                if m != "time" {
+                    ecall["m"] = json!(format!("t_{m}"));
+                }
+            }
+            let (call, out) = run.step(&ecall);
             self.stats.executed += 1;
             let kind = match call["m"].as_str().unwrap_or("?") {
                 "hook" => call["inner"].as_str().unwrap_or("?").to_string(),
@@ -178,18 +194,25 @@ impl<'a> Walker<'a> {
                 self.stats.refused_edges += 1;
             }
             let post = project(&run.w);
-            let d = digest(out.ok, &post);
-            let mismatch = d != e.digest;
+            let d = match run.digest_kind.as_str() {
+                "ownership:staking" => json!([out.ok, post["c"]["admin"], post["c"]["pending"], ju(&post["c"], "minTime").rem_euclid(100000)]),
+                "ownership:treasury" => json!([out.ok, post["t"]["admin"], post["t"]["pending"], ju(&post["t"], "minTime").rem_euclid(100000)]),
+                "treasury" => json!([out.ok, post["t"]["trader"], post["t"]["routes"].as_array().map(|a| a.len()).unwrap_or(0), out.msgs.len()]),
+                _ => digest(out.ok, &post, &out.msgs),
+            };
+            let mismatch = d != norm_expected(&e.digest);
+            // transitions that emit messages are always kept for full validation in the small models
+            let always = run.digest_kind != "staking" && out.ok && !out.msgs.is_empty();
             let sampled = self.sample_mod > 0 && (e.id.wrapping_mul(0x9E3779B97F4A7C15) ^ self.seed) % self.sample_mod == 0;
             let has_kids = self.kids.contains_key(&e.id);
             if mismatch {
                 self.stats.mismatches += 1;
                 if self.stats.first_mismatch.is_none() {
-                    self.stats.first_mismatch = Some(json!({"edge": e.id, "call": call, "predicted": e.digest, "observed": d, "err": out.err}));
+                    self.stats.first_mismatch = Some(json!({"edge": e.id, "call": call, "predicted": norm_expected(&e.digest), "observed": d, "err": out.err}));
                 }
             }
             stack.push(Frame { run, via: Some((call, out)), line: None });
-            if (mismatch && self.stats.mismatches <= self.max_logged_mismatches) || sampled {
+            if (mismatch && self.stats.mismatches <= self.max_logged_mismatches) || sampled || always {
                 self.ensure_logged(stack);
             }
             if has_kids {
@@ -215,19 +238,31 @@ pub fn setup_from_model(m: &Value) -> Setup {
 }
 
 /// Runs the whole tree. Returns the statistics.
-pub fn run_tree(text: &str, sink: &mut Sink, sample_mod: u64, seed: u64) -> Result<Stats, String> {
+/// MODEL.kind selects preamble and digest: "staking" (MilkyWay.tla), "ownership" (OwnershipMC.tla, run
+/// against the contract named by `target`), "treasury" (TreasuryMC.tla).
+pub fn run_tree(text: &str, sink: &mut Sink, sample_mod: u64, seed: u64, target: &str) -> Result<Stats, String> {
     let (model, kids, n) = parse(text);
     let model = model.ok_or("no MODEL line in the TLC output")?;
-    let mut run = Run::new(setup_from_model(&model), 0);
+    let kind = model["kind"].as_str().unwrap_or("staking").to_string();
+    let mut run = Run::new(if kind == "staking" { setup_from_model(&model) } else { Setup::default() }, 0);
+    run.digest_kind = if kind == "ownership" { format!("ownership:{target}") } else { kind.clone() };
     if !run.start(sink) {
         return Err("instantiate failed".into());
     }
-    if !model["halted"].as_bool().unwrap_or(false) {
-        run.apply(sink, &json!({"m":"resume_contract","s":"admin","n":0,"l":0,"r":0}));
-    }
-    let funds = model["funds"].as_u64().unwrap_or(0);
-    for u in model["users"].as_array().cloned().unwrap_or_default() {
-        run.apply(sink, &json!({"m":"faucet","a":u,"d":"IBCTIA","x":funds}));
+    if kind == "staking" {
+        if !model["halted"].as_bool().unwrap_or(false) {
+            run.apply(sink, &json!({"m":"resume_contract","s":"admin","n":0,"l":0,"r":0}));
+        }
+        let funds = model["funds"].as_u64().unwrap_or(0);
+        for u in model["users"].as_array().cloned().unwrap_or_default() {
+            run.apply(sink, &json!({"m":"faucet","a":u,"d":"IBCTIA","x":funds}));
+        }
+    } else {
+        let o = run.apply(sink, &json!({"m":"t_instantiate","s":"admin","admin":"admin","trader":"trader","routes":[]}));
+        if !o.ok {
+            return Err(format!("treasury instantiate failed: {}", o.err));
+        }
+        run.apply(sink, &json!({"m":"faucet","a":"treasury","d":"IBCTIA","x":1000}));
     }
     let root_line = run.at;
     let mut w = Walker {
